@@ -599,9 +599,9 @@ type RunSpec struct {
 	FileSizeLimit int `json:"filesizelimit,omitempty"`
 	// Retry: when the first Execute fails, Execute is called once more on the SAME context with these generators (what a
 	// caller does that repairs the cause and tries again)
-	Retry       []*Script           `json:"retry,omitempty"`
+	Retry []*Script `json:"retry,omitempty"`
 	// Then: further generator sets, each handed to Execute on the SAME context after the previous Execute succeeded
-	Then [][]*Script `json:"then,omitempty"`
+	Then        [][]*Script         `json:"then,omitempty"`
 	Entrypoints []string            `json:"entrypoints"`
 	All         bool                `json:"all,omitempty"`
 	Force       bool                `json:"force,omitempty"`
@@ -621,13 +621,13 @@ type RunResult struct {
 	Panic     string `json:"panic,omitempty"`
 	Calls     []Call `json:"calls,omitempty"`
 	// Retried: a second Execute was made on the same context with RunSpec.Retry (after the first one failed)
-	Retried     bool   `json:"retried,omitempty"`
-	RetryFailed bool   `json:"retryfailed,omitempty"`
+	Retried     bool `json:"retried,omitempty"`
+	RetryFailed bool `json:"retryfailed,omitempty"`
 	// ThenFrom: per RunSpec.Then set, the index into Calls of its first call
 	ThenFrom []int `json:"thenfrom,omitempty"`
 	// RetryFrom: index into Calls of the first call made by the second Execute
-	RetryFrom int `json:"retryfrom,omitempty"`
-	RetryErr    string `json:"retryerr,omitempty"`
+	RetryFrom int    `json:"retryfrom,omitempty"`
+	RetryErr  string `json:"retryerr,omitempty"`
 }
 
 func snapshotOutputs(root, base string) map[string]string {
